@@ -156,6 +156,9 @@ where
         if !normalization.is_normal() || !normalization.is_sign_positive() {
             return Err(());
         }
+        if probs.iter().any(|probability| !(*probability >= F::zero())) {
+            return Err(());
+        }
 
         let scale = AsPrimitive::<F>::as_(remaining_free_weight.as_()) / normalization;
 
